@@ -21,9 +21,19 @@ import (
 	"verifharness/mc"
 )
 
+// refuseAdmin makes the in-process proxy admin API answer 500 (a reload that the proxy refuses)
+var refuseAdmin bool
+
 type okTransport struct{}
 
 func (okTransport) RoundTrip(rq *http.Request) (*http.Response, error) {
+	if refuseAdmin {
+		if rq.Body != nil {
+			io.Copy(io.Discard, rq.Body)
+			rq.Body.Close()
+		}
+		return &http.Response{StatusCode: 500, Body: io.NopCloser(strings.NewReader("refused")), Header: http.Header{}, Request: rq}, nil
+	}
 	if rq.Body != nil {
 		io.Copy(io.Discard, rq.Body)
 		rq.Body.Close()
@@ -51,8 +61,8 @@ func (e event) String() string {
 
 var alpha = func() []event {
 	ev := []event{{kind: "req", txn: 0}, {kind: "resp", txn: 0}, {kind: "req", txn: 1}, {kind: "resp", txn: 1},
-		{kind: "reload"}, {kind: "revert"}, {kind: "revertDF"}}
-	for _, d := range []time.Duration{time.Second, 5 * time.Second, 24 * time.Second, 31 * time.Second} {
+		{kind: "reload"}, {kind: "reloadRefused"}, {kind: "revert"}, {kind: "revertDF"}}
+	for _, d := range []time.Duration{time.Second, 5 * time.Second, 24 * time.Second, 29 * time.Second, 31 * time.Second} {
 		ev = append(ev, event{kind: "tick", d: d})
 	}
 	return ev
@@ -73,6 +83,7 @@ type model struct {
 	current string // marker every new transaction must get
 	slots   [2]slot
 	reloads int
+	files   int // number of the last policies file written (loaded or refused)
 }
 
 func policiesYAML(k int) string {
@@ -108,7 +119,8 @@ func newModel() *model {
 	os.Setenv("LUNAR_PROXY_CONFIG_DIR", m.dir)
 	os.Setenv("LUNAR_PROXY_POLICIES_CONFIG", filepath.Join(m.dir, "policies.yaml"))
 	http.DefaultClient.Transport = okTransport{}
-	m.loaded = 1
+	m.loaded, m.files = 1, 1
+	refuseAdmin = false
 	os.WriteFile(filepath.Join(m.dir, "policies.yaml"), []byte(policiesYAML(1)), 0o644)
 	br, err := config.BuildInitialFromFile()
 	if err != nil {
@@ -129,13 +141,29 @@ func (m *model) Apply(ei int) string {
 		synctest.Wait()
 		return ""
 	case "reload":
-		m.loaded++
+		m.files++
+		m.loaded = m.files
 		os.WriteFile(filepath.Join(m.dir, "policies.yaml"), []byte(policiesYAML(m.loaded)), 0o644)
 		if err := m.acc.ReloadFromFile(); err != nil {
 			return "ERROR reload: " + err.Error()
 		}
 		m.current = fmt.Sprintf("v%d", m.loaded)
 		m.reloads++
+		return ""
+	case "reloadRefused":
+		// a new policies file whose endpoints the proxy refuses to register: the reload
+		// fails and the version being served stays what it was
+		m.files++
+		os.WriteFile(filepath.Join(m.dir, "policies.yaml"), []byte(policiesYAML(m.files)), 0o644)
+		refuseAdmin = true
+		err := m.acc.ReloadFromFile()
+		refuseAdmin = false
+		if err == nil {
+			return "REFUSED-RELOAD-ACCEPTED the proxy refused the new endpoints but the reload reported success"
+		}
+		if got := marker(m.acc.GetCurrentPoliciesData()); got != m.current {
+			return fmt.Sprintf("REFUSED-RELOAD-APPLIED the reload failed but the current version is %s, was %s", got, m.current)
+		}
 		return ""
 	case "revert", "revertDF":
 		var err error
@@ -147,7 +175,15 @@ func (m *model) Apply(ei int) string {
 		if err != nil {
 			return "ERROR revert: " + err.Error()
 		}
-		m.current = fmt.Sprintf("v%d", m.loaded) // same content as the last loaded file, new version
+		// a revert re-applies the last file the loader READ (the repository saves its "loaded"
+		// copy before the update is attempted, so after a refused reload that is the refused
+		// file); which of the two it is lies outside the statement: either is accepted, and
+		// transactions that start afterwards must get exactly that one
+		got := marker(m.acc.GetCurrentPoliciesData())
+		if got != fmt.Sprintf("v%d", m.loaded) && got != fmt.Sprintf("v%d", m.files) {
+			return fmt.Sprintf("REVERT-TO-UNKNOWN-VERSION after the revert the current version is %s; last loaded v%d, last file read v%d", got, m.loaded, m.files)
+		}
+		m.current = got
 		m.reloads++
 		return ""
 	}
@@ -224,6 +260,9 @@ func TestCheck(t *testing.T) {
 			fmt.Println("replay: schedule findings carry their trace in the replay file")
 			return
 		}
+		if replayVacuum(t, rp.Model, rp.Path) {
+			return
+		}
 		synctest.Test(t, func(t *testing.T) {
 			m := newModel()
 			defer m.close()
@@ -238,8 +277,8 @@ func TestCheck(t *testing.T) {
 		})
 		return
 	}
-	r.Rule = fmt.Sprintf("explicit-state BFS to depth %d over histories of {req(i), resp(i) for two transaction slots, reload (new policies file + ReloadFromFile), revert, revert-diagnosis-free, tick(1s|5s|24s|31s)} on the real TxnPoliciesAccessor with its real vacuum goroutines in virtual time; plus every history to depth 6 (7 thorough) of the real routing message handlers over {request, 503 response of three transactions incl. a retry attempt whose id differs from its sequence id, reload with/without the retry remedy}; plus schedules of request-vs-reload, reload-vs-reload(+pinned transaction), response-vs-vacuum; distinct = state keys (accessor dump + slot ages)", depth)
-	r.Assume("HAProxy admin API replaced by an always-200 in-process RoundTripper", "retention asserted for responses up to exactly 30 s after the first look-up")
+	r.Rule = fmt.Sprintf("explicit-state BFS to depth %d over histories of {req(i), resp(i) for two transaction slots, reload (new policies file + ReloadFromFile), the same reload refused by the proxy's admin API, revert, revert-diagnosis-free, tick(1s|5s|24s|29s|31s)} on the real TxnPoliciesAccessor with its real vacuum goroutines in virtual time; plus every history to depth 6 (7 thorough) of the real routing message handlers over {request, 503 response of three transactions incl. a retry attempt whose id differs from its sequence id, reload with/without the retry remedy}; plus the MapVacuum component by itself (every history of {register a new key, 1 s step} to depth 12 for four ttl/tick settings: no key removed before its time-to-live); plus schedules of request-vs-reload, reload-vs-reload(+pinned transaction), response-vs-vacuum; distinct = state keys (accessor dump + slot ages)", depth)
+	r.Assume("HAProxy admin API replaced by an in-process RoundTripper (200, or 500 during a refused reload)", "retention asserted for responses up to exactly 30 s after the first look-up")
 	if r.Parallel(t, 16) {
 		r.Finish(t)
 		return
@@ -273,6 +312,7 @@ func TestCheck(t *testing.T) {
 	}
 	r.Add("traces_validated_against_impl", r.Counters["transitions"])
 	phase("bfs done")
+	vacuumFamily(t, r)
 	routingFamily(t, r)
 	phase("routing done")
 	schedules(t, r)
